@@ -9,6 +9,7 @@
 
 #include "printf_impl.h"
 #include <ctype.h>
+#include <float.h>
 #include <igris/dprint.h>
 #include <igris/math/defs.h>
 #include <igris/util/types_extension.h>
@@ -64,8 +65,13 @@
 /**
  * Options for print_f
  */
+#define PRINT_F_FRAC_MAX                                                       \
+    64 /* fraction digits generated at most; any further requested digits are \
+          emitted as zeros (a long double carries ~20 significant digits) */
 #define PRINT_F_BUFF_SZ                                                        \
-    65 /* size of buffer for long double -- FIXME this may not be enough */
+    (DBL_MAX_10_EXP + 2 + 1 + PRINT_F_FRAC_MAX + 8 + 1) /* all integer digits  \
+          of the largest double (+ rounding carry), point, fraction digits,    \
+          exponent postfix, terminator */
 //#define PRINT_F_PREC_SHORTENED 4 /* shortened precision for real numbers */
 #define PRINT_F_PREC_DEFAULT 6 /* default precision for real numbers */
 
@@ -296,7 +302,9 @@ static int print_f(void (*printchar_handler)(void *d, int c),
     }
     fp = with_exp ? fp : MODF(r, &ip);
     precision -= (int)(is_shortened ? ceill(LOG10(ip)) + (ip != 0.0L) : 0);
-    for (; (sign_count < precision) && (FMOD(fp, 1.0L) != 0.0L); ++sign_count)
+    for (; (sign_count < precision) && (sign_count < PRINT_F_FRAC_MAX) &&
+           (FMOD(fp, 1.0L) != 0.0L);
+         ++sign_count)
         fp *= base;
     fp = roundl(fp);
 
